@@ -84,8 +84,10 @@ def spell(tape, src, dst, noise=True):
     form = tape.draw(6, 'sp.form') if noise else 0
     if same_origin and form in (1, 2):
         return path + q + frag                                     # root-relative
-    if same_origin and form == 3 and src.base_href is None:
-        rel = posixpath.relpath(dst.path, src.dir.rstrip('/') or '/')
+    if same_origin and form == 3:
+        # relative to the document's base: its own directory, or the directory its <base href> names
+        base_dir = src.dir if src.base_href is None else src.base_href
+        rel = posixpath.relpath(dst.path, base_dir.rstrip('/') or '/')
         if dst.path.endswith('/') and not rel.endswith('/'):
             rel += '/'
         if rel in ('.', './'):
@@ -267,6 +269,16 @@ def gen_site(tape, nhosts=1, npages=6, with_requisites=True, with_redirects=True
             r.redirect_code = tape.choice((301, 302, 303, 307, 308), 'site.redir.code')
             r.redirect_spelling = spell(tape, r, r.redirect_to)
             redirects.append(r)
+    # some documents declare a base of their own (it holds for that document only)
+    # (wpull, like other crawlers, also takes the href of <base> for a link: the base is always a directory page of the site,
+    # and the reference knows it as a link of the document)
+    for p in pages:
+        if tape.chance(1, 8, 'site.base_href'):
+            dirs = [d for d in pages if d.path.endswith('/') and d.query is None and d.origin.key() == p.origin.key()]
+            if dirs:
+                bd = dirs[tape.draw(len(dirs), 'site.base_href.dir')]
+                p.base_href = bd.path
+                p.links.append((bd, bd.path))
     # links
     everything = pages + redirects
     for p in pages:
